@@ -124,5 +124,108 @@ ENSURE_NEXT = Contract(
 )
 
 
+# --------------------------------------------------------------------------- NextResponse.from_app (WSGI)
+from pyvc.builtins import call_value
+from contracts.hdrs import HD, MH
+
+PAIRS = List(Tup(Str, Str))
+APP_GHOST = ObjT("AppGhost", n_app=Int, n_start=Int, lazy=Bool, status=Str)
+
+
+def _call_start_response(ev, node):
+    """the inner application calls start_response(status, headers) - exactly once (PEP 3333; A-wsgi-app)"""
+    st = ev.st
+    g = st.obj(st.ghost["ag"])
+    g.fields["n_start"] = VInt(g.fields["n_start"].t + 1)
+    call_value(ev, st.ghost["_start_response"], [g.fields["status"], st.ghost["hl"]], {}, node)
+
+
+def inner_app_stub(ev, args, kwargs, node):
+    """app(request, start_response): an arbitrary WSGI application (A-wsgi-app).  It calls start_response once - before it
+    returns (ordinary function) or when its result is first advanced (generator function: `lazy`) - and returns an
+    iterable of byte strings (re-iterable list/tuple or one-shot iterator)."""
+    USED.add("A-wsgi-app")
+    st = ev.st
+    g = st.obj(st.ghost["ag"])
+    g.fields["n_app"] = VInt(g.fields["n_app"].t + 1)
+    st.ghost["_start_response"] = args[1]
+    if not st.decide(g.fields["lazy"].t):
+        _call_start_response(ev, node)
+    return st.ghost["body"]
+
+
+inner_app_stub.mods = ("ag",)
+
+
+def lazy_iterator_next(ev, recv, args, kwargs, node):
+    """advancing a generator-function application for the first time runs it up to its first yield: that is where it
+    calls start_response"""
+    st = ev.st
+    g = st.obj(st.ghost["ag"])
+    if st.decide(z3.And(g.fields["lazy"].t, g.fields["n_start"].t == 0)):
+        _call_start_response(ev, node)
+    return iterator_next(ev, recv, args, kwargs, node)
+
+
+lazy_iterator_next.mods = ("ag",)
+
+
+def _from_app_setup(ev):
+    st = ev.st
+    st.ghost["outb"] = VStr(b"")
+    items = st.obj(st.obj(st.ghost["body"]).fields["items"])
+    n = z3.simplify(items.length)
+    if z3.is_int_value(n):
+        for p in range(n.as_long() + 1):
+            _unfold(st, items, z3.IntVal(p))
+    else:
+        _unfold(st, items, z3.IntVal(0))
+
+
+FA_DEFS = {
+    "code_text()": "ag.status[:ag.status.find(' ')]",
+    "unique_at(i)": "forall(j, 0, len(hl), implies(j != i, lower(hl[j][0]) != lower(hl[i][0])))",
+}
+
+FROM_APP = Contract(
+    id="wsgi.NextResponse.from_app", file=WM, qualname="NextResponse.from_app", props=["C20"],
+    params={"cls": Opaque("Class"), "app": TFunc(inner_app_stub, "app"), "request": Opaque("NextRequest")},
+    ghosts={"ag": APP_GHOST, "hl": PAIRS, "body": ObjT("Iterable", items=ITEMS, reiterable=Bool),
+            "outb": Bytes, "it": ObjT("ItGhost", n_iter=Int, n_chunks=Int)},
+    requires=["ag.n_app == 0", "ag.n_start == 0", "it.n_iter == 0", "it.n_chunks == 0",
+              # PEP 3333: the status is '<code> <reason phrase>' with a numeric code
+              "has(ag.status, ' ') and int_ok(code_text())",
+              # a generator-function application is a one-shot iterator
+              "implies(ag.lazy, not body.reiterable)"],
+    setup=_from_app_setup, defs=FA_DEFS,
+    ufuncs={"rest_from": ([Int], Bytes), "int_ok": ([Str], Bool), "int_of": ([Str], Int)},
+    stub_methods={("Iterable", "__iter__"): iterable_iter, ("Iterator", "__next__"): lazy_iterator_next},
+    on_yield=relay_yield, on_yield_from=relay_yield_from, yield_mods=("outb", "it"),
+    ghost_modifies=["outb", "it", "ag"], frame_check=False,
+    inline_callees=("wsgi.ensure_next",),
+    raises={},
+    ensures={
+        "app_ran_once": "ag.n_app == 1",
+        # the response object is built only after the application has called start_response (a generator-function
+        # application does so when ensure_next advances it)
+        "started_before_return": "ag.n_start == 1",
+        "status": "result.status_code == int_of(code_text())",
+        "header_names": "forall((k, Str), has(result.headers._dict, k) == exists(i, 0, len(hl), lower(hl[i][0]) == k))",
+        "header_values": "forall(i, 0, len(hl), implies(unique_at(i), result.headers._dict[lower(hl[i][0])] == hl[i][1]))",
+        "body_bytes": "outb == rest_from(0)",
+    },
+    canaries={"never_started": "ag.n_start == 0"},
+    assumptions=["A-gen-eager", "A-wsgi-app", "A-abc-1", "A-int-1"],
+    notes="the inner application is abstract (status string, header pair list, chunk list, eager or generator-style); "
+          "ensure_next is executed inline so that advancing a generator-style application is where start_response happens; "
+          "header names that occur several times are folded by Headers.__init__ (the known finding of C20)",
+)
+
+S_INIT = Contract(id="wsgi.StreamingResponse.__init__", file="baize/wsgi/responses.py", qualname="StreamingResponse.__init__",
+                  inline=True, props=["C20"], notes="3-line constructor, executed inline")
+
+
 def register(reg):
     reg.add(ENSURE_NEXT)
+    reg.add(FROM_APP)
+    reg.add(S_INIT)
